@@ -3,5 +3,8 @@ UNITS = {
     # rig/boot/sark.struct, the spinN presets, the default value of boot()'s sv_overrides parameter
     "GenBoot": dict(props=["C20", "C17"], dumper="dump_c20.py", args=["consts"]),
     # the bundled boot image rig/boot/scamp.boot, byte for byte
+    # fail-closed ast shape of MachineController.__init__/.boot and of boot()'s file reads; the live
+    # flag -> options table of rig-boot (rig/scripts/rig_boot.py)
+    "GenBootCtrl": dict(props=["C20"], dumper="dump_c20w.py"),
     "GenBootImage": dict(props=["C20"], dumper="dump_c20.py", args=["image"]),
 }
